@@ -1258,7 +1258,7 @@ fn cmd_driver(args: &[String]) -> i32 {
         }
         let rdir = simcore::evidence::replay_dir();
         let _ = std::fs::create_dir_all(&rdir);
-        let rpath = rdir.join(format!("C16-shuttle-{}.json", seed));
+        let rpath = rdir.join(format!("C16-shuttle-{}{}.json", seed, simcore::evidence::replay_tag()));
         let header = |items: Vec<Value>, form: &str| json!({
             "property": "C16", "engine": "shuttle", "seed": seed, "tier": tier, "form": form,
             "history": items, "violation": strip(&viol),
@@ -1274,7 +1274,7 @@ fn cmd_driver(args: &[String]) -> i32 {
                     let strict_ok = std::process::Command::new(&exe).arg("replay").arg(&rpath).env_remove("SHUTTLE_RANDOM_SEED").output().map(|o| o.status.code() == Some(1)).unwrap_or(false);
                     if strict_ok {
                         written = true;
-                        let mpath = rdir.join(format!("C16-shuttle-{}.min.json", seed));
+                        let mpath = rdir.join(format!("C16-shuttle-{}{}.min.json", seed, simcore::evidence::replay_tag()));
                         let st = std::process::Command::new(&exe).arg("minimise").arg(&rpath).arg("--out").arg(&mpath).env_remove("SHUTTLE_RANDOM_SEED").status();
                         if st.map(|s| s.code() == Some(0)).unwrap_or(false) && mpath.exists() {
                             let _ = std::fs::rename(&mpath, &rpath);
